@@ -623,7 +623,7 @@ Definition run_case (g : guards) (t : torrent) (have : list bool) (bfull : bool)
       | HPanic => crash_obs 1
       | HReject stage es =>
           if has_oom es then crash_obs 2
-          else mkobs 0 (has_big es) stage [] binit [] None (d_cnt s1) [] (d_have s1) (d_cnt s1) false
+          else mkobs 0 (has_big es) stage [] binit [] None (d_cnt s1) (pending_of t s1 qa) (d_have s1) (d_cnt s1) false
                      (map (fun b : bool => if b then 2 else 1) (d_have s1)) (t_len t)
       | HAccept aa =>
           if has_oom (a_eff aa) then crash_obs 2 else
